@@ -134,6 +134,11 @@ func (p *Program) directTargets(f *ssa.Function) []*ssa.Function {
 				}
 				continue
 			}
+			if common.StaticCallee() == nil && !p.dynamicTargetKnown(f, common.Value) {
+				for _, t := range p.funcValuesOfType(common.Value.Type()) {
+					add(t)
+				}
+			}
 			if sc := common.StaticCallee(); sc != nil {
 				name := p.funcName(sc)
 				if c := p.contracts.Funcs[name]; c != nil && (c.HasMod || c.Trusted) {
@@ -239,7 +244,12 @@ func (p *Program) ownGhostEffects(f *ssa.Function, est map[*ssa.Function]*ghostS
 				if p.dynamicTargetKnown(f, common.Value) {
 					continue
 				}
-				g.all = true
+				// otherwise: every repository function or closure of that signature whose value is taken
+				// somewhere (closed world: function values originate in the loaded program or in libraries,
+				// and library functions do not call the ledger)
+				for _, t := range p.funcValuesOfType(common.Value.Type()) {
+					g.add(get(t))
+				}
 				continue
 			}
 			name := p.funcName(sc)
@@ -291,4 +301,65 @@ func (p *Program) dynamicTargetKnown(f *ssa.Function, v ssa.Value) bool {
 		}
 	}
 	return false
+}
+
+// funcValuesOfType: repository functions and closures used as values whose signature is identical to t.
+func (p *Program) funcValuesOfType(t types.Type) []*ssa.Function {
+	sig, ok := t.Underlying().(*types.Signature)
+	if !ok {
+		return nil
+	}
+	if p.funcValues == nil {
+		p.funcValues = map[string][]*ssa.Function{}
+		seen := map[*ssa.Function]bool{}
+		var visit func(f *ssa.Function)
+		record := func(fv *ssa.Function) {
+			if fv == nil || seen[fv] || !p.inRepoFn(fv) {
+				return
+			}
+			seen[fv] = true
+			key := sigKey(fv.Signature)
+			p.funcValues[key] = append(p.funcValues[key], fv)
+		}
+		visited := map[*ssa.Function]bool{}
+		visit = func(f *ssa.Function) {
+			if f == nil || visited[f] || f.Blocks == nil {
+				return
+			}
+			visited[f] = true
+			for _, b := range f.Blocks {
+				for _, ins := range b.Instrs {
+					if mc, ok := ins.(*ssa.MakeClosure); ok {
+						record(mc.Fn.(*ssa.Function))
+					}
+					var ops []*ssa.Value
+					ops = ins.Operands(ops)
+					for i, op := range ops {
+						if op == nil || *op == nil {
+							continue
+						}
+						if fv, ok := (*op).(*ssa.Function); ok {
+							// skip the callee position of a static call
+							if call, ok := ins.(ssa.CallInstruction); ok && i == 0 && call.Common().Value == ssa.Value(fv) {
+								continue
+							}
+							record(fv)
+						}
+					}
+				}
+			}
+			for _, a := range f.AnonFuncs {
+				visit(a)
+			}
+		}
+		for _, f := range p.funcs {
+			visit(f)
+		}
+	}
+	return p.funcValues[sigKey(sig)]
+}
+
+func sigKey(sig *types.Signature) string {
+	// receiver-less signature text
+	return types.TypeString(types.NewSignatureType(nil, nil, nil, sig.Params(), sig.Results(), sig.Variadic()), nil)
 }
